@@ -66,8 +66,76 @@ func changesRev(store *server.Store, dsm *server.DsManager, op server.VerifOp, t
 // ---- the same features through the real HTTP handlers (internal/web/datasethandler.go)
 
 func httpDo(store *server.Store, dsm *server.DsManager, method, path string, body []byte) (int, []byte) {
+	return httpDoAccept(store, dsm, method, path, body, "")
+}
+
+// the JSON-LD rendering of a changes / entities page (Accept: application/ld+json): ids in order, the continuation token,
+// and for every entity the scalar properties and single references, which is what that rendering carries
+func ldPage(body []byte) (ids []string, token string, flat []map[string]interface{}, ok bool) {
+	var arr []map[string]interface{}
+	if err := json.Unmarshal(body, &arr); err != nil {
+		return nil, "", nil, false
+	}
+	for i, m := range arr {
+		if i == 0 {
+			continue // context
+		}
+		if t, has := m["core:token"]; has {
+			token, _ = t.(string)
+			continue
+		}
+		id, _ := m["@id"].(string)
+		ids = append(ids, id)
+		flat = append(flat, m)
+	}
+	return ids, token, flat, true
+}
+
+// compare one plain page with the JSON-LD rendering of the same request; "" = consistent
+func ldDiff(ents []server.VerifEnt, tok string, body []byte) string {
+	ids, ltok, flat, ok := ldPage(body)
+	if !ok {
+		return "unparsable JSON-LD response"
+	}
+	if ltok != tok {
+		return fmt.Sprintf("JSON-LD continuation %q, plain %q", ltok, tok)
+	}
+	if len(ids) != len(ents) {
+		return fmt.Sprintf("JSON-LD page has %d entities, plain page %d", len(ids), len(ents))
+	}
+	for i, e := range ents {
+		if ids[i] != e.ID {
+			return fmt.Sprintf("JSON-LD position %d is %s, plain %s", i, ids[i], e.ID)
+		}
+		for k, v := range e.Props {
+			switch v.(type) {
+			case []interface{}, map[string]interface{}, nil:
+				continue
+			}
+			a, _ := json.Marshal(v)
+			b, _ := json.Marshal(flat[i][k])
+			if string(a) != string(b) {
+				return fmt.Sprintf("JSON-LD %s property %s = %s, plain %s", e.ID, k, b, a)
+			}
+		}
+		for k, v := range e.Refs {
+			if sv, isStr := v.(string); isStr {
+				m, _ := flat[i][k].(map[string]interface{})
+				if m == nil || m["@id"] != sv {
+					return fmt.Sprintf("JSON-LD %s reference %s = %v, plain %s", e.ID, k, flat[i][k], sv)
+				}
+			}
+		}
+	}
+	return ""
+}
+
+func httpDoAccept(store *server.Store, dsm *server.DsManager, method, path string, body []byte, accept string) (int, []byte) {
 	e := web.VerifStoreEcho(store, dsm)
 	req := httptest.NewRequest(method, path, bytes.NewReader(body))
+	if accept != "" {
+		req.Header.Set("Accept", accept)
+	}
 	req.Header.Set("Content-Type", "application/json")
 	rec := httptest.NewRecorder()
 	e.ServeHTTP(rec, req)
@@ -137,6 +205,17 @@ func hChanges(store *server.Store, dsm *server.DsManager, op server.VerifOp, tok
 		oo.Err = "unparsable response"
 		return
 	}
+	if op.Ld && !op.Reverse { // the reverse reader has no JSON-LD rendering (plain entities under a JSON-LD context)
+		lcode, lbody := httpDoAccept(store, dsm, "GET", "/datasets/"+op.Ds+"/changes?"+q.Encode(), nil, "application/ld+json")
+		if lcode != 200 {
+			oo.Err = fmt.Sprintf("JSON-LD status %d", lcode)
+			return
+		}
+		if d := ldDiff(ents, tok, lbody); d != "" {
+			oo.Err = d
+			return
+		}
+	}
 	oo.Ents = ents
 	if tok == "" {
 		oo.Next = 0 // the reverse reader omits the continuation when it reached position 0
@@ -178,6 +257,18 @@ func hEntities(store *server.Store, dsm *server.DsManager, op server.VerifOp, to
 		if !ok {
 			oo.Err = "unparsable response"
 			return
+		}
+		if op.Ld {
+			lcode, lbody := httpDoAccept(store, dsm, "GET", "/datasets/"+op.Ds+"/entities?"+q.Encode(), nil, "application/ld+json")
+			if lcode != 200 {
+				oo.Err = fmt.Sprintf("JSON-LD status %d", lcode)
+				return
+			}
+			if d := ldDiff(ents, tok, lbody); d != "" {
+				oo.Err = d
+				oo.Pages = nil
+				return
+			}
 		}
 		oo.Pages = append(oo.Pages, ents)
 		if len(ents) == 0 || lim <= 0 {
